@@ -21,7 +21,9 @@ EXPLANATION = (
     "of a row or a return value are violations, the two atom-map regexes of chem_utils.remove_atom_mapping being owned by C15; (T2) "
     "the input_reaction column has exactly one writer, in preprocess, a copy of the reaction column taken after the atom-map removal "
     "and before anything else writes the reaction; (T3) the standardisers are applied to the merged fragment only, never to text "
-    "that carries input molecules."
+    "that carries input molecules; (T5/T6) the text stored in a row's reaction column belongs to that row: ids used as list positions are "
+    "positions of that list (rule shared with C06-B2) and no writer of the reaction column reads an attribute of a long-lived stage "
+    "object that can hold a value of an earlier batch (rule shared with C06-B7)."
 )
 ASSUMPTIONS = [
     "the input contains no free [H]/[O] placeholder components (precondition of the property): whole-component filters on those literals do not touch given molecules",
@@ -212,6 +214,21 @@ def _is_added_window(ctx, f, cfg, lst: str):
     return True, "tail window of %s whose length is non-zero only when imputed_side == %r" % (X, side)
 
 
+def rule_t5(ctx, pl: Pipeline) -> None:
+    """The text written to a row's reaction column is that row's own text:
+    (a) ids used as positions are positions of the same list (shared with C06-B2),
+    (b) a function that writes the reaction column reads no attribute of a
+    long-lived stage object that can still hold a value of an earlier batch
+    (shared with C06-B7)."""
+    from . import c06
+
+    c06.rule_b2(ctx, pl, "C02-T5")
+    writers = {s.func.qualname for st in pl.stages for s in st.stores if pl.reaction_col.text in s.keytexts}
+    ctx.require(len(writers) >= 4, "fewer than 4 functions write the reaction column (%d)" % len(writers))
+    reach = ctx.res.reachable(["synrbl.balancing.Balancer.rebalance"], ctx.graph)
+    c06.rule_b7(ctx, reach, "C02-T6", reader_filter=lambda m: m.qualname in writers)
+
+
 def check(ctx) -> None:
     pl = Pipeline(ctx)
     tf = TextFlow(ctx, ctx.pipeline_reachable())
@@ -219,3 +236,4 @@ def check(ctx) -> None:
     rule_t2(ctx, pl)
     rule_t3(ctx, tf)
     rule_t4(ctx)
+    rule_t5(ctx, pl)
